@@ -18,13 +18,16 @@ static int admissible(int p, unsigned idx, unsigned mask) {
 
 static void fb_one(polyseed_data *d, const rseed *sp, const uint8_t s0[32], int li, unsigned coin, int narrow, struct res *r) {
     rseed s = *sp;
-    struct { polyseed_str out; uint8_t canary[32]; } b; memset(&b, 0x6B, sizeof b);
+    /* the caller's buffer may sit at any address: offsets 0..7 from an aligned block, guard bytes on both sides */
+    struct { uint8_t raw[PSTR + 80]; } B_ __attribute__((aligned(16))); memset(&B_, 0x6B, sizeof B_); size_t boff = 16 + (size_t)((li + coin + (unsigned)narrow * 3) % 8);
+    struct { char *out; uint8_t *canary; } b = { (char *)B_.raw + boff, B_.raw + boff + PSTR };
     /* a seed in hand stays encodable whatever the enabled mask is now: half of the cases encode with every user feature disabled */
     if (narrow) polyseed_enable_features(0);
     size_t n = polyseed_encode(d, polyseed_get_lang(li), (polyseed_coin)coin, b.out); r->calls++; r->cases++;
     if (narrow) polyseed_enable_features(7);
     char rep[120], h[40]; hex(s.secret, 19, h); snprintf(rep, sizeof rep, "fb %s %u %u %d %u %d", h, s.birthday, s.features, li, coin, narrow);
     int bad = 0; for (int i = 0; i < 32; i++) if (b.canary[i] != 0x6B) bad |= 1;
+    for (size_t i = 0; i < boff; i++) if (B_.raw[i] != 0x6B) bad |= 1;
     size_t real = strnlen(b.out, PSTR);
     if (real >= PSTR) bad |= 1;
     if (!bad && real != n) { char key[64]; snprintf(key, sizeof key, "c17:returned-length:%s", RL[li].code); res_viol(r, key, rep, "%s, coin %u: polyseed_encode returned %zu but the NUL-terminated output is %zu bytes long", RL[li].name_en, coin, n, real); return; }
@@ -137,6 +140,11 @@ int main(int argc, char **argv) {
         }
     }
     polyseed_enable_features(7);
+    /* the public constant is usable in any expression: it is one value, whatever stands next to it */
+    { volatile size_t two = 2, seven = 7; r->cases++;
+      if (two * POLYSEED_STR_SIZE != two * sizeof(polyseed_str) || POLYSEED_STR_SIZE * two != sizeof(polyseed_str) * two || 4096 - POLYSEED_STR_SIZE != 4096 - sizeof(polyseed_str) || 4352 / POLYSEED_STR_SIZE != 4352 / sizeof(polyseed_str) || POLYSEED_STR_SIZE % seven != sizeof(polyseed_str) % seven || 4352 % POLYSEED_STR_SIZE != 4352 % sizeof(polyseed_str) || -POLYSEED_STR_SIZE != -(long)sizeof(polyseed_str) || (size_t)POLYSEED_STR_SIZE != sizeof(polyseed_str))
+          res_viol(r, "c17:public-constant", "", "POLYSEED_STR_SIZE does not behave as the single value %zu inside an expression (2 * POLYSEED_STR_SIZE = %zu): a table of N phrase buffers sized N * POLYSEED_STR_SIZE is too small", sizeof(polyseed_str), (size_t)(two * POLYSEED_STR_SIZE));
+      else { r->validated++; r->cls[0]++; } }
     /* 4. the returned length is the length of what was written, for every coin (the coin changes the second word after any
      *    length the encoder may have computed), and every produced phrase goes back through both decoders untruncated */
     if (replay_li < 0 || replay_li >= 100) {
